@@ -79,7 +79,8 @@ def tlc(sc, name, module_text, cfg_text='', workers=1, timeout=1800, extra_args=
     with open(os.path.join(d, name + '.cfg'), 'w') as f:
         f.write(cfg_text)
     env = dict(os.environ)
-    env['JAVA_TOOL_OPTIONS'] = java_opts or '-Xss256m'
+    # TLC creates an (empty) tlc-<n> directory under java.io.tmpdir on every start: keep it inside the scratch directory
+    env['JAVA_TOOL_OPTIONS'] = (java_opts or '-Xss256m') + ' -Djava.io.tmpdir=' + d
     cmd = ['tlc', '-workers', str(workers), '-metadir', os.path.join(d, 'md-' + name), '-noGenerateSpecTE',
            '-config', name + '.cfg'] + list(extra_args) + [name + '.tla']
     rc, so, se, dt = run(cmd, cwd=d, env=env, timeout=timeout)
